@@ -39,7 +39,11 @@ second caller, and with the polling thread held mid-check (inside source.load(),
 two lock sections) or while it holds the reloader lock (inside Guard.set_policy) — in a child
 process, in a daemon thread under a watchdog.  A call that does not return within T seconds
 is a violation; the verdict is compared with the Coq lock model's verdict for the same
-configuration (runner "conc": exhaustive exploration, sound by c14_exploration_sound).
+configuration (runner "conc": exhaustive exploration, sound by c14_exploration_sound).  A third calling context,
+"several coroutines of one running loop" (kind "coloop": overlapping check_and_reload_async tasks under
+asyncio.gather, blocking entry points called by a coroutine while an async check of the same reloader is suspended
+on that loop, with sources that really suspend, with and without the polling thread), is judged on the
+implementation alone — the lock model has threads, not suspended coroutines holding a lock.
 
 Tie of the hand-transcribed lock programs to the source: the watchdog runs, and a comparison
 of the lock skeleton of loader.py / engine.py (derived from the abstract syntax tree on every
@@ -469,6 +473,65 @@ def watchdog_cases(chk):
         for rep in range(6):
             for c in base:
                 c2 = dict(c, src=rng.choice(["sync", "async"]), rep=rep + 1, jitter=rng.random() * 0.02)
+                cases.append(c2)
+    return cases
+
+
+def coloop_cases(chk):
+    """calling context "several coroutines of one running loop": overlapping reloader / engine entry points as tasks
+    of ONE event loop (asyncio.gather), against sources whose etag()/load() return at once, yield, sleep, or wait for an
+    asyncio.Event that another task sets; blocking entry points called from a coroutine while an async check of the
+    same reloader is suspended on that loop; the same with the polling thread running."""
+    rng = chk.rng
+    S = {
+        "sync": {"kind": "sync"},
+        "async_now": {"kind": "async", "etag_wait": None, "load_wait": None},
+        "async_yield": {"kind": "async", "etag_wait": "yield", "load_wait": "yield"},
+        "async_sleep": {"kind": "async", "etag_wait": "yield", "load_wait": "sleep"},
+        "async_etag_sleep": {"kind": "async", "etag_wait": "sleep", "load_wait": None},
+    }
+    ac = lambda force=False, delay=0: {"op": "acheck", "force": force, "delay": delay}  # noqa: E731
+    op = lambda k, delay=1, **kw: dict({"op": k, "delay": delay}, **kw)  # noqa: E731
+    SETS = {
+        "2acheck": [ac(), ac()], "2acheck_ft": [ac(), ac(True)], "2acheck_tt": [ac(True), ac(True, 1)],
+        "3acheck": [ac(), ac(False, 1), ac(True, 2)],
+        "acheck+check": [ac(), op("check", force=False)], "acheck+check_force": [ac(True), op("check", force=True)],
+        "acheck+start": [ac(), op("start", initial=True, force=False)],
+        "acheck+start_noinit+stop": [ac(), op("start", initial=False), op("stop", 2, timed=True)],
+        "acheck+stop": [ac(), op("stop", timed=False)],
+        "acheck+eval": [ac(), op("eval"), op("aeval")],
+        "2acheck+check+eval": [ac(), ac(True, 1), op("check", 2, force=False), op("eval", 2)],
+    }
+    cases = []
+
+    def add(sname, tname, ops, poller):
+        cases.append({"kind": "coloop", "name": f"{sname}|{tname}|{'poller' if poller else 'nopoller'}", "src": S[sname]
+                      if sname in S else sname, "ops": copy.deepcopy(ops), "poller": poller})
+    for sname in S:
+        for tname, ops in SETS.items():
+            for poller in (False, True):
+                if poller and chk.tier == "quick" and tname not in ("2acheck", "acheck+check", "acheck+stop", "3acheck"):
+                    continue
+                add(sname, tname, ops, poller)
+    # an asyncio.Event that another task of the loop sets (only with awaiting entry points: the event belongs to the loop)
+    ev = {"kind": "async", "etag_wait": None, "load_wait": "event"}
+    ev2 = {"kind": "async", "etag_wait": "event", "load_wait": "yield"}
+    for src in (ev, ev2):
+        for tname in ("2acheck", "2acheck_ft", "3acheck"):
+            cases.append({"kind": "coloop", "name": f"async_event|{tname}|nopoller", "src": src,
+                          "ops": copy.deepcopy(SETS[tname]) + [{"op": "set_event", "delay": 3}, {"op": "aeval", "delay": 1}],
+                          "poller": False})
+    if chk.tier == "thorough":
+        base = list(cases)
+        for rep_ in range(4):
+            for c in base:
+                if c["src"].get("load_wait") == "event" or c["src"].get("etag_wait") == "event":
+                    continue
+                c2 = copy.deepcopy(c)
+                for o in c2["ops"]:
+                    o["delay"] = rng.randrange(0, 4)
+                rng.shuffle(c2["ops"])
+                c2["name"] += "|rep%d" % (rep_ + 1)
                 cases.append(c2)
     return cases
 
@@ -1697,6 +1760,114 @@ def run_watchdog(case, T):
     return res
 
 
+def run_coloop(case, T):
+    """the ops of the case as tasks of one event loop (asyncio.gather) on one HotReloader/Guard; did the loop finish
+    within T (2T: late), what did the calls return, where did the engine end?"""
+    from rbacx.core.engine import Guard
+    from rbacx.core.model import Action, Context, Resource, Subject
+    from rbacx.policy.loader import HotReloader
+    P0 = {"algorithm": "deny-overrides", "rules": []}
+    P1 = copy.deepcopy(POLICY_V)
+    spec = case["src"]
+    state = {"loads": 0, "etags": 0}
+    progress, box, hr_box = [], {}, {}
+    req = (Subject(id="u", roles=[], attrs={}), Action("read"), Resource(type="doc", id="1", attrs={}), Context({}))
+
+    def scenario():
+        async def main():
+            ev = asyncio.Event()
+
+            async def wait(how):
+                if how == "yield":
+                    await asyncio.sleep(0)
+                elif how == "sleep":
+                    await asyncio.sleep(0.003)
+                elif how == "event":
+                    await ev.wait()
+
+            if spec["kind"] == "async":
+                class Src:
+                    async def etag(self):
+                        state["etags"] += 1
+                        await wait(spec.get("etag_wait"))
+                        return "v1"
+
+                    async def load(self):
+                        state["loads"] += 1
+                        await wait(spec.get("load_wait"))
+                        return copy.deepcopy(P1)
+            else:
+                class Src:
+                    def etag(self):
+                        state["etags"] += 1
+                        return "v1"
+
+                    def load(self):
+                        state["loads"] += 1
+                        return copy.deepcopy(P1)
+            g = Guard(copy.deepcopy(P0))
+            hr = HotReloader(g, Src(), initial_load=True, poll_interval=0.05, backoff_min=0.05, backoff_max=0.1)
+            hr_box["hr"], hr_box["g"] = hr, g
+
+            async def run_op(i, o):
+                for _ in range(int(o.get("delay") or 0)):
+                    await asyncio.sleep(0)
+                k = o["op"]
+                r = None
+                if k == "acheck":
+                    r = await hr.check_and_reload_async(force=bool(o.get("force")))
+                elif k == "check":
+                    r = hr.check_and_reload(force=bool(o.get("force")))         # blocking call made by a coroutine
+                elif k == "start":
+                    hr.start(0.05, initial_load=bool(o.get("initial")), force_initial=bool(o.get("force")))
+                elif k == "stop":
+                    hr.stop(timeout=0.25 if o.get("timed") else None)
+                elif k == "eval":
+                    r = g.evaluate_sync(*req).effect
+                elif k == "aeval":
+                    r = (await g.evaluate_async(*req)).effect
+                elif k == "set_event":
+                    ev.set()
+                else:
+                    raise ValueError(k)
+                progress.append([i, k])
+                return r
+            if case.get("poller"):
+                hr.start(0.05, initial_load=False)
+            return await asyncio.gather(*[run_op(i, o) for i, o in enumerate(case["ops"])], return_exceptions=True)
+        try:
+            box["res"] = asyncio.run(main())
+        except BaseException as e:  # noqa: BLE001
+            box["exc"] = [type(e).__name__, str(e)[:200]]
+
+    th = threading.Thread(target=scenario, daemon=True)
+    t0 = time.time()
+    th.start()
+    th.join(T)
+    late = False
+    if th.is_alive():
+        th.join(T)
+        late = not th.is_alive()
+    returned = not th.is_alive()
+    hr, g = hr_box.get("hr"), hr_box.get("g")
+    res = {"returned": returned, "returned_late": late, "elapsed": round(time.time() - t0, 3), "progress": progress[:],
+           "not_returned_ops": [[i, o["op"]] for i, o in enumerate(case["ops"]) if [i, o["op"]] not in progress],
+           "loads": state["loads"], "etags": state["etags"], "raised": box.get("exc")}
+    if returned and "res" in box:
+        res["results"] = [["!raise", type(x).__name__, str(x)[:160]] if isinstance(x, BaseException) else x for x in box["res"]]
+        if case.get("poller") or any(o["op"] == "start" for o in case["ops"]):
+            hr.stop(timeout=2.0)
+        pol = g.policy
+        res["final_policy"] = "source" if pol == P1 else "initial" if pol == P0 else "other"
+        res["last_etag"] = hr.last_etag
+    if hr is not None:
+        try:
+            hr._stop_event.set()
+        except Exception:  # noqa: BLE001
+            pass
+    return res
+
+
 def child_main():
     lib.assert_impl_path()
     data = json.loads(sys.stdin.read())
@@ -1717,6 +1888,8 @@ def child_main():
                 r = run_interleave(case, T)
             elif case["kind"] == "watchdog":
                 r = run_watchdog(case, T)
+            elif case["kind"] == "coloop":
+                r = run_coloop(case, T)
             else:
                 r = {"error": "unknown kind"}
         except BaseException as e:  # noqa: BLE001
@@ -1741,12 +1914,12 @@ def case_cost(c):
         return 0.12 * max(1, len(c.get("requests") or []))
     if c["kind"] == "interleave":
         return 0.3 if c.get("sched") is not None else 6.0
-    return {"flavours": 0.5, "gather": 0.6, "watchdog": 0.7}.get(c["kind"], 0.1)
+    return {"flavours": 0.5, "gather": 0.6, "watchdog": 0.7, "coloop": 0.4}.get(c["kind"], 0.1)
 
 
 def run_children(cases, T=T_HANG, nproc=None):
     """results aligned with cases; a case whose child had to be killed gets {'error': 'child_killed'}."""
-    idx = [(i, c) for i, c in enumerate(cases) if c["kind"] in ("flavours", "gather", "watchdog", "hostile", "interleave")]
+    idx = [(i, c) for i, c in enumerate(cases) if c["kind"] in ("flavours", "gather", "watchdog", "hostile", "interleave", "coloop")]
     results = [None] * len(cases)
     if not idx:
         return results
@@ -2034,6 +2207,53 @@ def judge_gather(chk, c, r):
         chk.violation("concurrent evaluation mutated its inputs: " + m, strip(c), impl=r["mut"])
 
 
+def judge_coloop(chk, c, r):
+    """judged on the implementation alone: the lock model (Conc.v) has threads, not coroutines suspended on a loop"""
+    name = c.get("name", "?")
+    ctxname = "several coroutines of one running loop"
+    if "error" in r:
+        if r["error"] == "child_killed":
+            chk.violation(f"entry points called in the context '{ctxname}' never returned (child process killed)",
+                          strip(c), impl=r, model="every call returns")
+        else:
+            chk.notes.append(f"harness error on coloop case {name}: {r['error'][:300]}")
+            chk.corr_break("harness could not run a coroutine-context case", strip(c), impl=r, theorems=THEOREMS)
+        return
+    chk.mark(("coloop", name, json.dumps(c["src"], sort_keys=True), json.dumps(c["ops"], sort_keys=True)), True)
+    chk.count("coloop:src=%s/%s/%s" % (c["src"]["kind"], c["src"].get("etag_wait"), c["src"].get("load_wait")))
+    chk.count("coloop:ops=" + "+".join(o["op"] for o in c["ops"]) + ("|poller" if c.get("poller") else ""))
+    chk.count("coloop:returned" if r["returned"] else "coloop:HUNG")
+    if r.get("returned_late"):
+        chk.count("coloop:returned_late(>%.0fs)" % T_HANG)
+        chk.notes.append("slow, not hung: coloop %s returned after %.1fs" % (name, r["elapsed"]))
+    ops = "; ".join("%s(%s)" % (o["op"], ",".join(f"{k}={v}" for k, v in o.items() if k not in ("op", "delay"))) for o in c["ops"])
+    if not r["returned"]:
+        chk.violation("blocking entry points do not return in the calling context '%s': tasks of ONE event loop [%s]%s on "
+                      "one HotReloader with a %s source (etag waits: %s, load waits: %s) - the loop had not finished "
+                      "after %.0fs; calls that had not returned: %s; returned: %s"
+                      % (ctxname, ops, ", polling thread running" if c.get("poller") else "", c["src"]["kind"],
+                         c["src"].get("etag_wait"), c["src"].get("load_wait"), 2 * T_HANG,
+                         json.dumps(r["not_returned_ops"]), json.dumps(r["progress"])),
+                      strip(c), impl=r, model="every call returns (judged on the implementation; the lock model has no "
+                                              "coroutines)")
+        return
+    raised = [x for x in r.get("results") or [] if isinstance(x, list) and x[:1] == ["!raise"]]
+    if r.get("raised") or raised:
+        chk.violation(f"an entry point raised in the calling context '{ctxname}' instead of returning: "
+                      + json.dumps(r.get("raised") or raised)[:300], strip(c), impl=r, model="every call returns")
+        return
+    checks = [x for o, x in zip(c["ops"], r.get("results") or []) if o["op"] in ("acheck", "check")]
+    expects_load = bool(checks) or any(o["op"] == "start" and o.get("initial") for o in c["ops"])
+    if expects_load and (r.get("final_policy") != "source" or r.get("last_etag") != "v1"
+                         or (checks and not any(x is True for x in checks)
+                             and not c.get("poller") and not any(o["op"] == "start" for o in c["ops"]))):
+        chk.violation("overlapping reload checks on one event loop leave an inconsistent result: the source holds one "
+                      "document (tag v1) that differs from the engine's, checks ran [%s], yet final policy = %s, "
+                      "last_etag = %r, check results = %s" % (ops, r.get("final_policy"), r.get("last_etag"), json.dumps(checks)),
+                      strip(c), impl=r, model={"final_policy": "source", "last_etag": "v1", "some check": True})
+    chk.sample({"coloop": name, "impl": r}, every=41)
+
+
 def judge_watchdog(chk, c, r, mv, replay):
     key = (c["ctx"], json.dumps(c["main"]), c.get("xctx"), json.dumps(c.get("other")), c.get("sched"), c.get("src"),
            c.get("fault"), c.get("rep"))
@@ -2178,6 +2398,8 @@ def check_cases(chk, cases, replay=False):
                                       evs[k][2] if k is not None else "?"),
                                    strip(c), impl={"events": evs[: (k or 0) + 3], "first_unmatched": k},
                                    model=acc, theorems=THEOREMS)
+        elif c["kind"] == "coloop":
+            judge_coloop(chk, c, r)
         elif c["kind"] == "skeleton":
             check_skeletons(chk)
         elif c["kind"] == "witness":
@@ -2202,6 +2424,13 @@ def run(chk):
                 "quick, 10-20 thorough) — each Decision vs the same request alone on a fresh Guard (policies: 3 "
                 "obligations per permit, specificity tiers with rel conditions, a policy set; quick 2 request pairs "
                 "per policy, thorough up to all 21 pairs, with and without cache); "
+                "(b') calling context 'several coroutines of one running loop': 2-3 overlapping "
+                "check_and_reload_async(force in {F,T}) via asyncio.gather, and blocking check_and_reload / start / stop / "
+                "evaluate_sync called by a coroutine while an async check of the same reloader is in flight on that loop, "
+                "x {sync source, async source returning at once / yielding / sleeping in etag or load / waiting for an "
+                "asyncio.Event set by another task} x {polling thread running or not}: the loop finishes within the "
+                "watchdog time, nothing raises, the engine ends on the source's document (implementation only, no model "
+                "verdict); "
                 "(b) every entry point x {plain thread, running loop} alone, start;stop, start;check;stop, with a second "
                 "caller, racing starts, with the polling thread free / held in source.load() / held in set_policy, sync "
                 "and async sources, failing sources: returned within %.0fs or not, vs the lock model's verdict for the "
@@ -2215,6 +2444,9 @@ def run(chk):
         "the lock programs of Conc.v are hand-transcribed from loader.py/engine.py (tied by the skeleton comparison and "
         "the watchdog runs only): PARTIAL",
         "an entry point that has not returned after %.0f s on this machine is taken to hang" % (2 * T_HANG),
+        "the calling context 'several coroutines of one running loop' (kind coloop) is judged on the implementation "
+        "only: Conc.v models threads and thread locks, it has no coroutine suspended on the loop thread while holding a "
+        "lock; c14_start_stop_deadlock_free speaks about the thread-level programs",
         "the implementation is observed on sampled schedules (plus two forced ones); only the model covers all schedules",
     ]
     corp = corpus_cases()
@@ -2225,11 +2457,12 @@ def run(chk):
     except Exception:  # noqa: BLE001
         chk._c14_full_family = True
     cases = (corp + [{"kind": "skeleton"}, {"kind": "witness"}] + watchdog_cases(chk) + flavour_cases(chk)
-             + hostile_cases(chk) + interleave_cases(chk) + gather_cases(chk))
+             + coloop_cases(chk) + hostile_cases(chk) + interleave_cases(chk) + gather_cases(chk))
     chk.extra["cases"] = {"corpus": len(corp), "watchdog": sum(1 for c in cases if c["kind"] == "watchdog"),
                           "flavours": sum(1 for c in cases if c["kind"] == "flavours"),
                           "hostile": sum(1 for c in cases if c["kind"] == "hostile"),
                           "interleave": sum(1 for c in cases if c["kind"] == "interleave"),
+                          "coloop": sum(1 for c in cases if c["kind"] == "coloop"),
                           "gather": sum(1 for c in cases if c["kind"] == "gather")}
     check_cases(chk, cases)
     fam = lib.dec(lib.run_model("conc", [lib.model_call("conc.family")])[0])
